@@ -186,9 +186,76 @@ def handleNames (line : String) (hidden c a r call ls us : String) : String :=
     answer m (if Supported inv then spec else "any")
   | _, _, _, _, _ => badLine line
 
+/-! ## Histories (fourth line kind): the long-running instances of tools/c20_gen.py, first `n` outer calls
+
+`hist <caps> <args> <ret> <call> init=<v,…|-> n=<N>`: the body template `exits-i64` (its exit forms `ret`/`brk`/`lop`/`tail` differ in
+syntax only: one interaction tree, the exits are `ret` nodes in the middle of the tree) and the outer loop of a `many` instance: outer
+call number `i` has the arguments `i & 3, i % 7 - 3, (i % 5) * 2 - 4, (i & 15) - 8` (as many as the shape has), the results are folded
+into `acc = acc * 1000003 + v` (wrapping) and `acc` is printed whenever the number of calls made is a power of two.
+  M/V: `histG` (the generated closure over the munchers' expansion), S: `histE` (explicit recursion). -/
+
+def exitsBody (inv : Inv) (tc : Bool) : Body :=
+  let idx := (List.range inv.caps.length).zip inv.caps
+  let shared := idx.filterMap fun (i, (n, m)) => if m then none else some (n, i)
+  let muts := idx.filterMap fun (i, (n, m)) => if m then some (n, i) else none
+  let hasRet := inv.ret.isSome
+  readAll inv.args fun as =>
+  readAll (shared.map (·.1)) fun cs =>
+  let a0 := as.headD 0
+  let last := as.getLastD 0
+  let sh := (cs.zip (shared.map (·.2))).foldl (fun acc (c, i) => w64 (acc + w64 (c * (2 * (i : Int) + 3)))) 1
+  let step31 (c v salt : Int) : Int := w64 (w64 (w64 (c * 31) + v) + salt)
+  let rest := (as.drop 1).zip (List.range (as.length - 1))
+  let rec1 : List Val := (a0 - 1) :: rest.map fun (a, k) => w64 (a + ((k : Int) + 1))
+  let rec2 : List Val := (a0 - 2) :: rest.map fun (a, k) => xor64 (w64 (a * 3)) ((k : Int) + 1)
+  let after (v : Int) (k : Body) : Body := updAll muts (fun i c => step31 c v (10 + (i : Int))) k
+  updAll muts (fun i c => step31 c (xor64 a0 sh) ((i : Int) + 1)) <|
+  readAll (muts.map (·.1)) fun ms =>
+  let mu := ms.foldl (fun acc m => w64 (acc + m)) 0
+  let b := w64 (w64 (sh + last) + mu)
+  if a0 ≤ 0 then .ret (if hasRet then b else 0)                                    -- early exit 1
+  else if a0 > 3 ∨ a0 % 2 = 1 then
+    .call tc rec1 fun x =>
+    if hasRet then after x (.ret (w64 (x + 1))) else after a0 (.ret 0)             -- early exit 2
+  else
+    .call tc rec1 fun x =>
+    if hasRet then .call tc rec2 fun y => after (xor64 x y) (.ret (w64 (w64 (x * 7) + y)))
+    else after (a0 + 1) (.call tc rec2 fun _ => .ret 0)
+
+def soakArgs (nargs : Nat) (i : Nat) : List Val :=
+  let j : Int := i
+  [j % 4, j % 7 - 3, (j % 5) * 2 - 4, j % 16 - 8].take nargs
+
+def isPow2 (n : Nat) : Bool := n > 0 && (n &&& (n - 1)) == 0
+
+/-- the checkpoints `1:acc;2:acc;4:acc;…` of the accumulator over the results -/
+def checkpoints (hasRet : Bool) (rs : List Val) : String :=
+  let (_, _, out) := rs.foldl (fun (st : Int × Nat × String) v =>
+    let (acc, i, out) := st
+    let acc' := w64 (w64 (acc * 1000003) + (if hasRet then v else 0))
+    (acc', i + 1, if isPow2 (i + 1) then out ++ s!"{i + 1}:{acc'};" else out)) (0, 0, "")
+  out
+
+def showHist (hasRet : Bool) : Except Err (List Val × Store) → String
+  | .error e => "error:" ++ showErr e
+  | .ok (rs, _) => checkpoints hasRet rs
+
+def handleHist (line : String) (c a r call ini ns : String) : String :=
+  match parseCaps c, parseArgs a, parseRet r, (if ini.startsWith "init=" then parseIntsComma? (ini.drop 5).toString else none),
+        (if ns.startsWith "n=" then (ns.drop 2).toString.toNat? else none) with
+  | some caps, some args, some ret, some inits, some n =>
+    if call ≠ "tc" ∧ call ≠ "ntc" then badLine line else
+    let inv : Inv := { caps := caps, args := args, ret := ret }
+    let live : List Live := [{ inv := inv, body := exitsBody inv (call = "tc"), fuel := 64 }]
+    let evs : List Event := (List.range n).map fun i => (0, soakArgs args.length i)
+    let s0 := storeOf ((caps.map (·.1)).zip inits)
+    answer (showHist ret.isSome (histG live evs s0)) (if Supported inv then showHist ret.isSome (histE live evs s0) else "any")
+  | _, _, _, _, _ => badLine line
+
 def handleAny (line : String) : String :=
   match tokens line with
   | "run" :: c :: a :: r :: call :: ini :: ins => handleRun line c a r call ini ins
+  | ["hist", c, a, r, call, ini, ns] => handleHist line c a r call ini ns
   | ["names", hidden, c, a, r, call, ls, us] => handleNames line hidden c a r call ls us
   | _ => handle line
 
